@@ -1,9 +1,11 @@
-"""EosGen/ModInfoTable*.lean: the complete per-entry decision table of modifier-info conversion and
-the build-status grid, obtained by running the real ModInfoconverter / ModBuilder (property C19).
+"""EosGen/ModInfoTable.lean: the complete per-entry decision table of modifier-info conversion and the
+build-status grid, obtained by running the real ModInfoconverter / ModBuilder (property C19).
 
-Row = (entry code, outcome code, build view).  The codes are decimal-digit records documented in
-lean/EosModel/ModInfo.lean (`decodeEntry`, `encodeOutcome`, `buildView`); this module is the Python
-end of that transport and is also used by tools/props/c19.py.
+For every one-entry modifierInfo list of the product function x domain x operation x id shapes the real
+outcome (build failure, or the eight modifier fields and the `_valid` verdict) and what `ModBuilder().build`
+returns are recorded as decimal-digit records; the layout is documented in the transport section of
+lean/EosModel/ModInfo.lean (`decodeEntry`, `encodeOutcome`, `viewOf`, `idPatterns`, `blockSpec`).  This module
+is the Python end of that transport and is also used by tools/props/c19.py.
 """
 import os
 import sys
